@@ -84,7 +84,7 @@ def _jobs(tier):
                 continue
             base = 60 if product else 120
             jobs.append(dict(sub="api_masks", count=geo(k, base * SCALE, 6, 6 * SCALE) * mult, fix=dict(k=k, op=op)))
-    for op in range(9):
+    for op in range(12):
         jobs.append(dict(sub="table_masks", count=(6000 if op < 6 else 1500) * mult, fix=dict(op=op, logm=(0, 6))))
         jobs.append(dict(sub="table_masks", count=(600 if op < 6 else 200) * mult, fix=dict(op=op, logm=(7, 12))))
     return jobs
@@ -98,7 +98,8 @@ for (name, lgmin, lgmax, lgthr, lglarge, need512, base) in PAIRS:
 _req += ["mask:0", "mask:1", "mask:2", "mask:3", "misaligned", "module:FFT64", "module:NTT120", "reim_to_znx64:ties"]
 _req += ["tablemask:" + n for n in ("reim_to_znx64", "reim_from_znx64", "reim_to_tnx", "cplx_from_znx32", "cplx_from_tnx32", "cplx_to_tnx32",
                                     "reim_to_znx64_simple(bound<=50 then bound>50)", "znx_small_single_product(monomials, |result| in [2^50,2^52))",
-                                    "svp+idft(monomials, |result| in [2^50,2^52))")] + ["tablemask:m>=8"]
+                                    "svp+idft(monomials, |result| in [2^50,2^52))", "reim_fftvec_mul/addmul in place",
+                                    "reim4_fftvec_mul/addmul in place", "cplx_fftvec_mul/addmul in place")] + ["tablemask:m>=8"]
 _req += ["api:" + n for n in (
     "znx_small_single_product", "svp_prepare+svp_apply_dft+vec_znx_idft", "vmp_prepare_contiguous+vmp_apply_dft+vec_znx_idft_tmp_a",
     "vec_znx_add", "vec_znx_sub", "vec_znx_negate", "vec_znx_rotate", "vec_znx_automorphism", "vec_znx_normalize_base2k",
